@@ -2,6 +2,7 @@ package main
 
 import (
 	"fmt"
+	"os"
 	"go/types"
 	"strings"
 
@@ -147,12 +148,14 @@ func (x *Exec) atReturn(st *State, res []Val) {
 		st.obls = append(st.obls, Obl{Name: "lock:balance", Tags: []string{"C09"}, Goal: TTrue, PCLen: len(st.pc), Static: "ok", Desc: "every lock acquired on the path has been released at return"})
 	}
 	env := x.postEnv(st, res)
-	for _, e := range spec.Ensures {
-		st.oblige(fmt.Sprintf("post:%d", e.N), x.tagsFor(e.Tags, spec.Tags), env.evalBool(e.X), "ensures "+e.Text)
-	}
+	// emits first: bind(...) patterns introduce names the ensures clauses may use
 	if spec.HasEmits {
+		x.bindEmitNames(st, env, spec.Emits)
 		g, why := x.matchEmits(st, env, spec.Emits)
 		x.obligeEmits(st, "emits", x.tagsFor(spec.EmitTags, spec.Tags), TTrue, g, why)
+	}
+	for _, e := range spec.Ensures {
+		st.oblige(fmt.Sprintf("post:%d", e.N), x.tagsFor(e.Tags, spec.Tags), env.evalBool(e.X), "ensures "+e.Text)
 	}
 	oenv := env.inOld()
 	var allAssumes []Term
@@ -164,12 +167,22 @@ func (x *Exec) atReturn(st *State, res []Val) {
 		A := And(as...)
 		allAssumes = append(allAssumes, A)
 		x.addCover("cover:"+b.Name, st.pc, A)
-		for _, e := range b.Ensures {
-			st.oblige(fmt.Sprintf("post:%s/%d", b.Name, e.N), x.tagsFor(e.Tags, spec.Tags), Implies(A, env.evalBool(e.X)), "behaviour "+b.Name+": ensures "+e.Text)
-		}
+		// emits first: bind(...) patterns introduce names the ensures clauses may use
+		benv := env.child()
+		x.bindEmitNames(st, benv, b.Emits)
 		if b.HasEmits {
-			g, why := x.matchEmits(st, env, b.Emits)
+			g, why := x.matchEmits(st, benv, b.Emits)
 			x.obligeEmits(st, "emits:"+b.Name, x.tagsFor(b.EmitTags, spec.Tags), A, g, why)
+		}
+		for _, e := range b.Ensures {
+			g := benv.evalBool(e.X)
+			if os.Getenv("HVC_SPLIT") != "" {
+				for k, c := range flattenConj(g) {
+					st.oblige(fmt.Sprintf("post:%s/%d.%d", b.Name, e.N, k+1), x.tagsFor(e.Tags, spec.Tags), Implies(A, c), "behaviour "+b.Name+": conjunct "+trunc(c.S, 160))
+				}
+				continue
+			}
+			st.oblige(fmt.Sprintf("post:%s/%d", b.Name, e.N), x.tagsFor(e.Tags, spec.Tags), Implies(A, g), "behaviour "+b.Name+": ensures "+e.Text)
 		}
 	}
 	if spec.Complete && len(spec.Behaviours) > 0 {
@@ -315,7 +328,12 @@ func (x *Exec) matchEmitsLoop(st *State, env *Env, pats []EventPat, ord int, fro
 			rec(pi+1, append(append([]int(nil), chosen...), pi), cs)
 			return
 		}
-		rec(pi+1, append(append([]int(nil), chosen...), pi), append(append([]Term(nil), cs...), conds[pi]))
+		if pats[pi].AtLeast {
+			// emitted whenever the condition holds, and possibly otherwise
+			rec(pi+1, append(append([]int(nil), chosen...), pi), cs)
+		} else {
+			rec(pi+1, append(append([]int(nil), chosen...), pi), append(append([]Term(nil), cs...), conds[pi]))
+		}
 		rec(pi+1, chosen, append(append([]Term(nil), cs...), Not(conds[pi])))
 	}
 	rec(0, nil, nil)
@@ -407,6 +425,11 @@ func (x *Exec) matchArg(env *Env, pa Expr, actual Val, heap map[string]Term) (Te
 		out := []Term{Neq(ptr.T(), TZero)}
 		for _, fi := range mp.Fields {
 			fv := senv.fieldOf(ptr, fi.Name)
+			if bc, ok := fi.X.(*ECall); ok && bc.Fn == "bind" && len(bc.Args) == 1 {
+				// bind(name): give the actual field value a name for the rest of the pattern / later clauses
+				env.vars[bc.Args[0].(*EIdent).Name] = fv
+				continue
+			}
 			if sub, ok := fi.X.(*EMsg); ok {
 				tm, w := x.matchArg(env, sub, fv, heap)
 				if w != "" {
@@ -809,4 +832,31 @@ func (x *Exec) checkCallsSpec(st *State, env *Env, cs *CallsSpec) {
 	default:
 		st.obligeStaticFail(name, tags, fmt.Sprintf("parameter %s is called %d times", cs.Param, len(hits)))
 	}
+}
+
+// flattenConj splits a conjunction (also under an implication) into its conjuncts (debugging aid).
+func flattenConj(t Term) []Term {
+	conjMu.Lock()
+	cs, ok := conjTable[t.S]
+	conjMu.Unlock()
+	if ok {
+		var out []Term
+		for _, c := range cs {
+			out = append(out, flattenConj(c)...)
+		}
+		return out
+	}
+	if strings.HasPrefix(t.S, "(=> ") {
+		implMu.Lock()
+		p, ok := implTable[t.S]
+		implMu.Unlock()
+		if ok {
+			var out []Term
+			for _, c := range flattenConj(p[1]) {
+				out = append(out, Implies(p[0], c))
+			}
+			return out
+		}
+	}
+	return []Term{t}
 }
